@@ -47,7 +47,8 @@ def c05(tier, seed):
               world("dq_multi_cref_str", threading=1, arg=1, key=1, fill="0xFF", fraction=0.3),
               world("dq_multi_val_getevent_decoy", threading=1, arg=0, mode=5, key=0, fraction=0.15),     # enqueue(first, args...) through a policy that ignores `first`
               world("dq_multi_cref_moveonly", threading=1, arg=1, moveonly=1, fraction=0.3, fill="0xFF"),       # move-only argument type
-              world("dq_spin_val_hash", threading=2, arg=0, key=3, fill="0x00", fraction=0.15, callback=1)]
+              world("dq_spin_val_hash", threading=2, arg=0, key=3, fill="0x00", fraction=0.15, callback=1),
+              world("dq_tracked_val", threading=3, arg=0, fill="0xAB", fraction=0.2)]       # tracked mutexes / atomics: relock = hang at once, use after destruction recorded
     if not quick:
         worlds += [world("dq_multi_ref_incl_clang17", threading=1, arg=2, mode=1, key=2, compiler="clang++", std="c++17", opt="-O2", fraction=0.2, only_tags=["nest", "recycle"]),
                    world("dq_single_val_getevent", threading=0, arg=0, mode=3, key=4, fraction=0.2)]
